@@ -14,7 +14,7 @@ from typing import Any, List, Optional
 
 ROOTS = ["coro", "coro", "coro", "agen", "gen", "agen_thrown"]
 CORO_LINKS = ["await_coro", "await_gencoro", "await_wrapper", "await_gen", "agen_anext", "agen_asend", "agen_asend_agen", "with_del_self", "agen_athrow",
-              "agen_aclose", "async_for"]
+              "agen_aclose", "async_for", "agen_anext_default", "aiter_anext_default"]
 GEN_LINKS = ["yield_from"]
 ENDS = ["trap", "future", "future_falsy", "future_len0"]
 
@@ -179,6 +179,37 @@ def build(spec: dict) -> Chain:
                 else:
                     async for _ in a:
                         pass
+                await tail()
+            return ch.reg(f())
+        if k == "agen_anext_default":
+            # the two-argument builtin anext(): a builtin anext_awaitable wraps the asend awaitable
+            async def ag():
+                await aw(i + 1)
+                yield 1
+
+            async def f():
+                a = ch.reg(ag())
+                ch.keep.append(a)
+                await anext(a, None)
+                await tail()
+            return ch.reg(f())
+        if k == "aiter_anext_default":
+            # the same over a class-based async iterator: the wrapper holds the __anext__ coroutine
+            class AIter:
+                def __aiter__(s):
+                    return s
+
+                def __anext__(s):
+                    return ch.reg(s.step())
+
+                async def step(s):
+                    await aw(i + 1)
+                    return 1
+
+            async def f():
+                a = AIter()
+                ch.keep.append(a)
+                await anext(a, None)
                 await tail()
             return ch.reg(f())
         if k == "agen_asend":
